@@ -10,15 +10,23 @@ tables of box / guide glyphs, padding arithmetic and alignment offsets.
 families: panel, padding, align, constrain, styled, rule, bar, pbar, columns, tree
 consoles: utf8 | ascii (file.encoding == "ascii" -> options.ascii_only) | legacy (legacy_windows=True)
 
-HISTORY part (E2 style): 20 mutable subjects x all histories of length <=3 (thorough <=4) over
-{render at W1, render at W2, public mutators}; the last render must equal the render of a fresh
-object built in the final state and pass the family's own clauses (keys history/<kind>/...).
+HISTORY part (E2 style), keys history/<kind>/...:
+ * mutation histories: 20 mutable subjects (Columns add_renderable / renderables.append, Tree.add on
+   root / first child, RenderGroup.renderables.append, Panel/Padding/Align/Constrain/Styled with
+   .renderable reassigned, ProgressBar update(completed) / update(completed, total=smaller|larger) /
+   assignment to completed, total, width) x all histories of length <=3 (thorough <=4) over {render
+   at W1, render at W2, mutators}: the last render must equal the render of a fresh object built in
+   the final state and pass the family's own clauses (e.g. a bar never exceeds its width).
+ * shared arguments: every option taking a Text object (Panel title, Rule title, Tree label, Columns
+   title / item, RenderGroup item, child of Panel/Padding/Align/Constrain/Styled) handed as ONE object
+   to two frames x 2 Text variants x all histories of length <=3 (<=4) over {render A at W1/W2,
+   measure A, render B, measure B}: every render must equal a fresh frame with a fresh copy, and the
+   object must be unchanged afterwards (history/<kind>/argument-mutated).
 
 Measured (shared machine, load average 30-150; CPU seconds are the stable number):
-  quick    249,482 cases (664 of them histories), 1,164 distinct outcomes, ~165 CPU-s
-           (wall 22-58 s with 6 workers under load)
-  thorough 2,432,594 cases (7,230 histories), ~2,100 CPU-s (wall 1,932 s with 16 workers at
-           load 140; ~2.5 min expected on 16 idle cores)
+  quick    254,714 cases (5,896 of them histories), 1,362 distinct outcomes, ~150-170 CPU-s
+           (wall 43-47 s with 6 workers under load)
+  thorough ~2.54 M cases (110,646 histories, ~95 CPU-s of the ~2,200 CPU-s total)
 """
 import io
 import itertools
@@ -942,7 +950,25 @@ HIST_NEXT = {
 }
 
 
-def hist_mutate(obj, kind, mut, j):
+def _pbar_next(d, mut):
+    """-> (total, completed, width) after mutator `mut` on the ProgressBar description d"""
+    total, completed, width = d[1], d[2], d[3]
+    if mut == "update":
+        return total, completed + 5, width
+    if mut == "update_smaller":
+        return total / 2, total * 0.8, width
+    if mut == "update_larger":
+        return total * 2, total * 1.5, width
+    if mut == "set_completed":
+        return total, total + 5, width
+    if mut == "set_total":
+        return total / 2, completed, width
+    if mut == "set_width":
+        return total, completed, (5 if width is None else None)
+    raise ValueError(mut)
+
+
+def hist_mutate(obj, kind, mut, j, desc=None):
     """apply the j-th mutation of the history to the real object through its public interface"""
     from rich.text import Text
     if kind == "columns":
@@ -957,7 +983,17 @@ def hist_mutate(obj, kind, mut, j):
     elif kind == "group":
         obj.renderables.append(Text(HIST_NEXT["group"][j]))
     elif kind == "pbar":
-        obj.update(obj.completed + 5)
+        total, completed, width = _pbar_next(desc, mut)
+        if mut == "update":
+            obj.update(completed)
+        elif mut in ("update_smaller", "update_larger"):
+            obj.update(completed, total=total)
+        elif mut == "set_completed":
+            obj.completed = completed
+        elif mut == "set_total":
+            obj.total = total
+        else:
+            obj.width = width
     else:
         obj.renderable = build(HIST_NEXT["child"][j])
 
@@ -975,12 +1011,13 @@ def hist_apply(desc, kind, mut, j):
     elif kind == "group":
         d[1].append(HIST_NEXT["group"][j])
     elif kind == "pbar":
-        d[2] = d[2] + 5
+        d[1], d[2], d[3] = _pbar_next(d, mut)
     else:
         d[1] = HIST_NEXT["child"][j]
     return d
 
 
+PBAR_MUTATORS = ["update", "update_smaller", "update_larger", "set_completed", "set_total", "set_width"]
 HIST_SUBJECTS = [
     ("columns", ["columns", ["i0", "i1xx", "i2"], _cdev()], ["add_renderable", "append"], (14, 40)),
     ("columns", ["columns", ["i0", "i1xx", "i2"], _cdev(right_to_left=True)], ["add_renderable", "append"], (14, 40)),
@@ -1000,12 +1037,195 @@ HIST_SUBJECTS = [
     ("align", ["align", T("ab cd"), "right", False, 6, "on blue"], ["set_child"], (12, 40)),
     ("constrain", ["constrain", T("ab cd"), 4], ["set_child"], (12, 40)),
     ("styled", ["styled", T("ab cd"), "bold red"], ["set_child"], (12, 40)),
-    ("pbar", ["pbar", 10, 0, None, False, None], ["update"], (7, 40)),
-    ("pbar", ["pbar", 10, 0, None, True, 0.37], ["update"], (7, 40)),
+    ("pbar", ["pbar", 10, 0, None, False, None], PBAR_MUTATORS, (7, 40)),
+    ("pbar", ["pbar", 10, 0, None, True, 0.37], PBAR_MUTATORS, (7, 40)),
 ]
 
 
+
+# ---- shared argument objects: every option that takes a Text / renderable object rather than a str
+SHARED_VARIANTS = [T("ti"), T("a\nb c", "right", None, False, "spans")]
+
+
+def _snapshot(text):
+    """the observable state of a Text argument"""
+    return {"plain": text.plain, "spans": [(sp.start, sp.end, str(sp.style)) for sp in text.spans],
+            "style": str(text.style), "justify": text.justify, "overflow": text.overflow, "end": text.end,
+            "no_wrap": text.no_wrap, "tab_size": text.tab_size}
+
+
+def shared_frame(kind, opts, shared):
+    """a fresh frame of `kind` that is handed the (possibly shared) Text object"""
+    from rich.text import Text
+    if kind == "panel-title":
+        from rich.panel import Panel
+        from rich import box
+        return Panel(Text("ab cd"), getattr(box, opts["box"]), title=shared, title_align=opts["title_align"],
+                     expand=opts["expand"], padding=_pad(opts["padding"]))
+    if kind == "rule-title":
+        from rich.rule import Rule
+        return Rule(shared, characters=opts["chars"], align=opts["align"])
+    if kind == "tree-label":
+        from rich.tree import Tree
+        if opts["at"] == "root":
+            root = Tree(shared)
+            root.add(Text("n1"))
+        else:
+            root = Tree(Text("n0"))
+            root.add(shared)
+        return root
+    if kind == "columns-title":
+        from rich.columns import Columns
+        return Columns([Text("i0"), Text("i1")], title=shared, expand=opts["expand"])
+    if kind == "columns-item":
+        from rich.columns import Columns
+        return Columns([shared, Text("i1")] if opts["first"] else [Text("i1"), shared], equal=opts["equal"])
+    if kind == "group-item":
+        from rich.console import RenderGroup
+        return RenderGroup(Text("g0"), shared)
+    if kind == "panel-child":
+        from rich.panel import Panel
+        return Panel(shared, expand=opts["expand"])
+    if kind == "padding-child":
+        from rich.padding import Padding
+        return Padding(shared, _pad(opts["pad"]), expand=opts["expand"])
+    if kind == "align-child":
+        from rich.align import Align
+        return Align(shared, opts["align"])
+    if kind == "constrain-child":
+        from rich.constrain import Constrain
+        return Constrain(shared, opts["width"])
+    if kind == "styled-child":
+        from rich.styled import Styled
+        return Styled(shared, opts["style"])
+    raise ValueError(kind)
+
+
+def shared_desc(kind, opts, v):
+    """the plain description (family, desc) the frame is equivalent to, or None when the families' judges do
+    not apply (styled / multi-line titles and labels)"""
+    plain = v == SHARED_VARIANTS[0]
+    if kind == "panel-title":
+        return ("panel", ["panel", T("ab cd"), _pdev(box=opts["box"], title=v[1], title_align=opts["title_align"],
+                                                    expand=opts["expand"], padding=opts["padding"])]) if plain else None
+    if kind == "rule-title":
+        return ("rule", ["rule", v[1], opts["chars"], opts["align"], "str"]) if plain else None
+    if kind == "tree-label":
+        labels = [v[1], "n1"] if opts["at"] == "root" else ["n0", v[1]]
+        return ("tree", ["tree", [-1, 0], [1, 1], labels, None]) if plain else None
+    if kind == "columns-title":
+        return ("columns", ["columns", ["i0", "i1"], _cdev(expand=opts["expand"])])
+    if kind == "columns-item":
+        labels = [v[1], "i1"] if opts["first"] else ["i1", v[1]]
+        return ("columns", ["columns", labels, _cdev(equal=opts["equal"])]) if plain else None
+    if kind == "group-item":
+        return ("group", ["group", ["g0", v[1]]]) if plain else None
+    if kind == "panel-child":
+        return ("panel", ["panel", v, _pdev(expand=opts["expand"])])
+    if kind == "padding-child":
+        return ("padding", ["padding", v, opts["pad"], opts["expand"], "none"])
+    if kind == "align-child":
+        return ("align", ["align", v, opts["align"], True, None, None])
+    if kind == "constrain-child":
+        return ("constrain", ["constrain", v, opts["width"]])
+    if kind == "styled-child":
+        return ("styled", ["styled", v, opts["style"]])
+    raise ValueError(kind)
+
+
+# (kind, options of frame A, options of frame B that shares the object, (W1, W2))
+SHARED_SUBJECTS = [
+    ("panel-title", {"box": "ROUNDED", "title_align": "center", "expand": True, "padding": [0, 1]},
+     {"box": "ASCII", "title_align": "left", "expand": False, "padding": 0}, (12, 40)),
+    ("panel-title", {"box": "ROUNDED", "title_align": "right", "expand": False, "padding": [0, 1]},
+     {"box": "ROUNDED", "title_align": "center", "expand": True, "padding": [0, 1]}, (12, 40)),
+    ("rule-title", {"chars": "─", "align": "center"}, {"chars": "=-", "align": "left"}, (5, 40)),
+    ("rule-title", {"chars": "─", "align": "right"}, {"chars": "─", "align": "center"}, (12, 40)),
+    ("tree-label", {"at": "root"}, {"at": "child"}, (8, 40)),
+    ("columns-title", {"expand": False}, {"expand": True}, (8, 40)),
+    ("columns-item", {"first": True, "equal": False}, {"first": False, "equal": True}, (8, 40)),
+    ("group-item", {}, {}, (4, 40)),
+    ("panel-child", {"expand": True}, {"expand": False}, (8, 40)),
+    ("padding-child", {"pad": [1, 2], "expand": True}, {"pad": [0, 0, 0, 3], "expand": False}, (8, 40)),
+    ("align-child", {"align": "center"}, {"align": "right"}, (8, 40)),
+    ("constrain-child", {"width": 4}, {"width": None}, (8, 40)),
+    ("styled-child", {"style": "bold red"}, {"style": "on blue"}, (8, 40)),
+]
+SHARED_EVENTS = ["RA1", "RA2", "MA", "RB1", "MB"]
+
+
+def gen_shared(tier):
+    depth = 3 if tier == "quick" else 4
+    kinds = KINDS[:1] if tier == "quick" else KINDS
+    for kind, a, b, (w1, w2) in SHARED_SUBJECTS:
+        for v in SHARED_VARIANTS:
+            for n in range(1, depth + 1):
+                for evs in itertools.product(SHARED_EVENTS, repeat=n):
+                    if evs[-1][0] != "R":
+                        continue
+                    for con in kinds:
+                        yield {"fam": "history", "mode": "shared", "kind": kind, "con": con, "W1": w1, "W2": w2,
+                               "shared": v, "A": a, "B": b, "events": list(evs)}
+
+
+def check_shared(case, res):
+    """One Text object handed to two frames; renders and measurements in any order. Every render must equal the
+    render of a fresh frame holding a fresh copy of the object, and the object must come out unchanged."""
+    from rich.measure import Measurement
+    kind, v = case["kind"], case["shared"]
+    con = console(case["con"])
+    widths = {"1": case["W1"], "2": case["W2"]}
+    try:
+        shared = build(v)
+        frames = {"A": shared_frame(kind, case["A"], shared), "B": shared_frame(kind, case["B"], shared)}
+        pattern = []
+        for step, ev in enumerate(case["events"]):
+            which = ev[1]
+            if ev[0] == "M":
+                Measurement.get(con, frames[which], case["W1"])
+                pattern.append("M" + which)
+                continue
+            w = widths[ev[2]]
+            out = render(con, frames[which], w)
+            pattern.append("R" + which)
+            fresh = render(con, shared_frame(kind, case[which], build(v)), w)
+            res.evaluations += 1
+            if out != fresh:
+                gt, ft = [t for t, _ in out[0]], [t for t, _ in fresh[0]]
+                what = "characters" if gt != ft else "styles"
+                res.violate("history/%s/differs-from-fresh" % kind, case,
+                            "step %d of %r: render of frame %s at %d (%s) differs from a fresh frame with a fresh copy "
+                            "of the argument: got %r, fresh %r" % (step, case["events"], which, w, what, gt, ft))
+                break
+            eq = shared_desc(kind, case[which], v)
+            if eq is not None:
+                inner = {"fam": eq[0], "con": case["con"], "W": w, "desc": eq[1], "color": "truecolor",
+                         "no_color": False}
+                _OVERRIDE_OUT[0] = out
+                try:
+                    CHECKS[eq[0]](inner, _HistoryResult(res, case, "history/" + kind + "/"))
+                finally:
+                    _OVERRIDE_OUT[0] = None
+        before, after = _snapshot(build(v)), _snapshot(shared)
+    except Exception as e:  # noqa: BLE001
+        res.evaluations += 1
+        res.violate("history/%s/%s" % (kind, _crash_key(e)), case, "%s: %s" % (type(e).__name__, e))
+        return
+    pat = "".join(pattern)
+    res.sig(("shared", kind, v == SHARED_VARIANTS[0], pat.count("R"), "M" in pat, "A" in pat and "B" in pat),
+            nontrivial=len(pattern) > 1)
+    if before != after:
+        diff = {k: (before[k], after[k]) for k in before if before[k] != after[k]}
+        res.violate("history/%s/argument-mutated" % kind, case,
+                    "after %r the caller's Text changed: %r (before, after)" % (case["events"], diff))
+
+
 def gen_history(tier):
+    yield from gen_mutation_histories(tier)
+    yield from gen_shared(tier)
+
+
+def gen_mutation_histories(tier):
     depth = 3 if tier == "quick" else 4
     kinds = KINDS[:1] if tier == "quick" else KINDS
     for kind, init, muts, (w1, w2) in HIST_SUBJECTS:
@@ -1022,11 +1242,11 @@ def gen_history(tier):
 class _HistoryResult:
     """lets a family's own judge run on the last render of a history: findings are filed under history/..."""
 
-    def __init__(self, res, case):
-        self.res, self.case, self.evaluations = res, case, 0
+    def __init__(self, res, case, prefix="history/"):
+        self.res, self.case, self.evaluations, self.prefix = res, case, 0, prefix
 
     def violate(self, key, case, detail):
-        self.res.violate("history/" + key, self.case, detail)
+        self.res.violate(self.prefix + key, self.case, detail)
 
     def sig(self, s, nontrivial=True):
         pass
@@ -1036,6 +1256,8 @@ class _HistoryResult:
 
 
 def check_history(case, res):
+    if case.get("mode") == "shared":
+        return check_shared(case, res)
     kind = case["kind"]
     con = console(case["con"])
     widths = {"R1": case["W1"], "R2": case["W2"]}
@@ -1049,7 +1271,7 @@ def check_history(case, res):
                 out = render(con, obj, last_w)
                 pattern.append("R")
             else:
-                hist_mutate(obj, kind, ev, nmut)
+                hist_mutate(obj, kind, ev, nmut, desc)
                 desc = hist_apply(desc, kind, ev, nmut)
                 nmut += 1
                 pattern.append("M")
@@ -1383,9 +1605,9 @@ GENS = {"panel": gen_panel, "padding": gen_padding, "align": gen_align, "constra
         "styled": gen_styled, "rule": gen_rule, "bar": gen_bar, "pbar": gen_pbar, "columns": gen_columns,
         "tree": gen_tree, "history": gen_history}
 SHARDS = {"quick": {"panel": 24, "padding": 4, "align": 6, "constrain": 2, "styled": 2, "rule": 2, "bar": 2,
-                    "pbar": 3, "columns": 24, "tree": 8, "history": 2},
+                    "pbar": 3, "columns": 24, "tree": 8, "history": 4},
           "thorough": {"panel": 96, "padding": 8, "align": 12, "constrain": 4, "styled": 3, "rule": 3, "bar": 3,
-                       "pbar": 4, "columns": 40, "tree": 12, "history": 4}}
+                       "pbar": 4, "columns": 40, "tree": 12, "history": 8}}
 
 
 # ------------------------------------------------------------------ protocol
@@ -1429,9 +1651,14 @@ def describe(tier, seed, res):
                 "(23 shapes) x expanded flags of the internal nodes x 3 label layouts (one-line, two-line, mixed) x guide style "
                 "{default, bold, underline2}. HISTORY part: %d mutable subjects (Columns add_renderable / renderables.append, "
                 "Tree.add on root and on the first child, RenderGroup.renderables.append, Panel/Padding/Align/Constrain/Styled "
-                "with .renderable reassigned, ProgressBar.update) x every history of length <=%d over {render at W1, render at "
-                "W2, each mutator} that ends in a render: the last render must equal (characters + visible styles) the render "
-                "of a fresh object built in the final state and pass the family's own clauses. "
+                "with .renderable reassigned, ProgressBar update(completed[, total smaller|larger]) and assignment to "
+                "completed/total/width) x every history of length <=%d over {render at W1, render at W2, each mutator} that "
+                "ends in a render: the last render must equal (characters + visible styles) the render of a fresh object built "
+                "in the final state and pass the family's own clauses. Shared arguments: 13 subjects (Text object as Panel "
+                "title, Rule title, Tree label, Columns title/item, RenderGroup item, child of the five wrappers) x 2 Text "
+                "variants x every history of the same length over {render A at W1, render A at W2, measure A, render B, "
+                "measure B} with A and B sharing the object: every render equals a fresh frame with a fresh copy and the "
+                "object is unchanged afterwards. "
                 "A case is non-trivial when the frame was compared cell by cell with the child "
                 "rendered alone (or, for rules/bars/columns/trees, when the clause it exercises was applicable; for "
                 "histories, when a mutation follows a render and precedes the last render)."
